@@ -38,6 +38,7 @@ import (
 	"encoding/json"
 	"errors"
 	"fmt"
+	"hash/fnv"
 	"os"
 	"sort"
 	"strconv"
@@ -47,6 +48,7 @@ import (
 	"testing/synctest"
 	"time"
 
+	"github.com/centrifugal/centrifuge/internal/saferand"
 	"github.com/centrifugal/protocol"
 )
 
@@ -286,6 +288,11 @@ func verifC36Scenario(line string) (res string) {
 		}
 	}()
 	kv := verifC36KV(line)
+	// the first-ping / first-presence jitters come from the package-level randSource: seed it from the
+	// scenario line so that a replay draws the same jitters
+	hsh := fnv.New64a()
+	_, _ = hsh.Write([]byte(line))
+	randSource = saferand.New(int64(hsh.Sum64() >> 1))
 	// second-aligned base
 	now := time.Now()
 	if ns := now.Nanosecond(); ns != 0 {
